@@ -19,6 +19,8 @@ import WzVerif.Lemmas.IfRange
 import WzVerif.Lemmas.HttpSetHist
 import WzVerif.Lemmas.HttpHist
 import WzVerif.Lemmas.HttpNF
+import WzVerif.Lemmas.DateNF
+import WzVerif.Lemmas.HttpAuthNF
 namespace Wz.Props.C06
 open Wz Wz.Http
 
@@ -835,6 +837,20 @@ theorem age_normal_form_arbitrary (h : Str) (n : Nat) (hp : parseAge h = .ok (so
 
 example : parseAge " +1_0 ".toList = .ok (some 10) := by decide
 
+open Wz.Date in
+/-- **HTTP dates**: for every text `w` in the IMF-fixdate layout that the parser accepts — any
+three-letter day name, two-digit years written `00YY` re-centuried as `email.utils` does, every valid
+civil date of years 100..9999 — re-serialising the parsed instant and parsing again returns the same
+instant: every accepted civil date lies in the range of `date_roundtrip` (day-number bounds by `omega`).
+The other layouts `email.utils` reads (RFC 850, asctime, numeric zones) are tied by the stream only. -/
+theorem date_normal_form_arbitrary (w : Wz.Date.Str) (t : Nat) (hp : parseDate w = some t) :
+    parseDate (httpDate t) = some t :=
+  date_normal_form_any w t hp
+
+open Wz.Date in
+example : parseDate "Xyz, 29 Feb 0004 23:59:59 GMT".toList = some 63213695999
+    ∧ httpDate 63213695999 = "Sun, 29 Feb 2004 23:59:59 GMT".toList := by decide +kernel
+
 /-- **If-Range** is *not* a normal form on arbitrary text: `parse_if_range_header('a"b')` returns the
 entity tag `a"b`, which `IfRange.to_header()` refuses to serialise (`quote_etag` raises ValueError) —
 outside the domain of `ifRange_etag_roundtrip` by its `_needs_no_quote` witness; on the dumper's
@@ -846,6 +862,56 @@ theorem ifRange_normal_form_arbitrary_false (pd : Str → Option Nat) (h : pd "a
     simp only [parseIfRange, h]
     decide
   exact ⟨this, by rw [this]; decide⟩
+
+/-- **Authorization** on header text: everything `from_header` returns is one of three shapes — Basic
+credentials whose user name has no `:`, a stripped token with `=` only as trailing padding, or a
+parameter dict with distinct names — ... -/
+theorem authorization_parser_image (h : Str) (a : Auth) (hp : authorizationFromHeader h = .ok (some a)) :
+    (∃ u p, ':' ∉ u ∧ a = ⟨"basic".toList, basicParams u p, none⟩) ∨
+    (a.type ≠ "basic".toList ∧ ∃ tok, a = ⟨a.type, [], some tok⟩ ∧ AuthTokenOk tok = true) ∨
+    (a.type ≠ "basic".toList ∧ a = ⟨a.type, a.params, none⟩ ∧ (a.params.map (·.1)).Nodup) :=
+  authorization_image h a hp
+
+/-- ... and `from_header(to_header(from_header(h))) == from_header(h)`: always for Basic credentials
+(whatever bytes the client base64-encoded, as long as they were UTF-8), and for the other two shapes
+when the scheme survives `title()` / `lower()` and the parameter names are tokens without `*` with a
+first value present -/
+theorem authorization_normal_form_text (h : Str) (a : Auth) (hp : authorizationFromHeader h = .ok (some a))
+    (hs : a.type = "basic".toList ∨ SchemeOk a.type = true)
+    (hps : a.token = none → a.type ≠ "basic".toList →
+      ∃ x d, a.params = x :: d ∧ (∀ y ∈ x :: d, KeyOk y.1 = true) ∧ x.2.isSome = true) :
+    (authorizationToHeader a >>= authorizationFromHeader) = .ok (some a) :=
+  authorization_normal_form_any h a hp hs hps
+
+example : authorizationFromHeader "BASIC  dTpwOnE=  ".toList
+    = .ok (some ⟨"basic".toList, basicParams "u".toList "p:q".toList, none⟩) := by decide +kernel
+
+/-- the scheme hypothesis is needed: `ß`.title() is `Ss`, so the scheme `ß` comes back as `ss` -/
+theorem authorization_normal_form_arbitrary_false_scheme :
+    (authorizationFromHeader "ß x".toList >>= fun a => match a with
+      | some a => authorizationToHeader a >>= authorizationFromHeader | none => pure none)
+      ≠ authorizationFromHeader "ß x".toList := by decide +kernel
+
+/-- scheme of a `WWW-Authenticate` value: survives `title()` / `lower()`, title without space (`basic`
+is an ordinary parameter scheme here) -/
+abbrev SchemeOkW := Wz.Http.SchemeOkW
+
+/-- **WWW-Authenticate** on header text, schemes other than `digest`: the same normal form; in
+particular `Basic realm="x"` — outside `www_param_roundtrip`, whose `SchemeOk` excludes `basic` — ... -/
+theorem www_normal_form_text (h : Str) (a : Auth) (hp : wwwFromHeader h = .ok (some a))
+    (hs : SchemeOkW a.type = true) (hnd' : (a.type == "digest".toList) = false)
+    (hps : a.token = none → ∃ x d, a.params = x :: d ∧ (∀ y ∈ x :: d, KeyOk y.1 = true) ∧ x.2.isSome = true) :
+    (wwwToHeader a >>= wwwFromHeader) = .ok (some a) :=
+  www_normal_form_any h a hp hs hnd' hps
+
+/-- ... which also round-trips as a value: `WWWAuthenticate("basic", {"realm": r, ...})` -/
+theorem www_basic_roundtrip (x : Str × Option Str) (d : Dict (Option Str))
+    (hk : ∀ y ∈ x :: d, KeyOk y.1 = true) (hnd : ((x :: d).map (·.1)).Nodup) (hv : x.2.isSome = true) :
+    (wwwToHeader ⟨"basic".toList, x :: d, none⟩ >>= wwwFromHeader) = .ok (some ⟨"basic".toList, x :: d, none⟩) :=
+  www_param_roundtrip_w "basic".toList x d (by decide +kernel) (by decide) hk hnd hv
+
+example : wwwToHeader ⟨"basic".toList, [("realm".toList, some "a b".toList), ("charset".toList, some "UTF-8".toList)], none⟩
+    = .ok "Basic realm=\"a b\", charset=UTF-8".toList := by decide +kernel
 
 /-- **key=value dicts and Cache-Control** on header text: whenever the keys the parser returned are
 tokens without `*`, `parse_dict_header(dump_header(parse_dict_header(h))) == parse_dict_header(h)`
